@@ -9,7 +9,8 @@
  *   requires  the operands are what the call sites guarantee (finite for the
  *             native layer; no combination that the policy declares unchecked:
  *             inf-inf, x/0, inf/inf, sqrt(<0), inf mod y) and a legal Rounding_Dir
- *   assigns   *to only
+ *   assigns   *to only   (operands are read through their ENTRY values, OLD(*x): the same contract is
+ *             enforced when the arguments alias -- to == x, to == y, x == y -- by check C13)
  *   ensures   post_rel, post_dir, post_strict of spec.h against the exact result,
  *             described by  ecls_<op> (class: finite / +inf / -inf / undefined)
  *             and either e_<op> (an integer) or c_<op>(.., t) = sign(exact - t).
@@ -323,11 +324,11 @@ SPEC int ecls_of_vc(uint32_t c) { return c == VC_PLUS_INFINITY ? CLS_PINF : c ==
 
 #if defined(VERIF_CBMC)
 #define CONTRACT_UN(OP)  uint32_t FN_##OP(T_u *to, const T_u *x, uint32_t dir) \
-  PRE(dir, dir_valid(dir)) PRE(operands, C_##OP##_PRE(*x, 0, 0)) ASSIGNS(*to) C_##OP##_POSTS(RET, *to, OLD(*to), *x, 0, 0, dir);
+  PRE(dir, dir_valid(dir)) PRE(operands, C_##OP##_PRE(*x, 0, 0)) ASSIGNS(*to) C_##OP##_POSTS(RET, *to, OLD(*to), OLD(*x), 0, 0, dir);
 #define CONTRACT_BIN(OP) uint32_t FN_##OP(T_u *to, const T_u *x, const T_u *y, uint32_t dir) \
-  PRE(dir, dir_valid(dir)) PRE(operands, C_##OP##_PRE(*x, *y, 0)) ASSIGNS(*to) C_##OP##_POSTS(RET, *to, OLD(*to), *x, *y, 0, dir);
+  PRE(dir, dir_valid(dir)) PRE(operands, C_##OP##_PRE(*x, *y, 0)) ASSIGNS(*to) C_##OP##_POSTS(RET, *to, OLD(*to), OLD(*x), OLD(*y), 0, dir);
 #define CONTRACT_EXP(OP) uint32_t FN_##OP(T_u *to, const T_u *x, uint32_t exp, uint32_t dir) \
-  PRE(dir, dir_valid(dir)) PRE(operands, C_##OP##_PRE(*x, 0, exp)) ASSIGNS(*to) C_##OP##_POSTS(RET, *to, OLD(*to), *x, 0, exp, dir);
+  PRE(dir, dir_valid(dir)) PRE(operands, C_##OP##_PRE(*x, 0, exp)) ASSIGNS(*to) C_##OP##_POSTS(RET, *to, OLD(*to), OLD(*x), 0, exp, dir);
 #ifdef FN_assign
 CONTRACT_UN(assign)
 #endif
@@ -445,7 +446,7 @@ CONTRACT_EXP(smod_2exp_ext)
 /* fused ops read *to: its entry value is an operand (finite for the native layer) */
 #define CONTRACT_FMA(OP, SUB, NATIVE) uint32_t FN_##OP(T_u *to, const T_u *x, const T_u *y, uint32_t dir) \
   PRE(dir, dir_valid(dir)) PRE(operands, C_##OP##_PRE(*x, *y, 0)) \
-  PRE(accumulator, NATIVE ? x_in_range(*to) : pre_muladd_ext(*to, *x, *y, SUB)) ASSIGNS(*to) C_##OP##_POSTS(RET, *to, OLD(*to), *x, *y, 0, dir);
+  PRE(accumulator, NATIVE ? x_in_range(*to) : pre_muladd_ext(*to, *x, *y, SUB)) ASSIGNS(*to) C_##OP##_POSTS(RET, *to, OLD(*to), OLD(*x), OLD(*y), 0, dir);
 #ifdef FN_add_mul
 CONTRACT_FMA(add_mul, 0, 1)
 #endif
